@@ -31,6 +31,17 @@ def gen_mech(rng, nsrc=None):
         srcs = srcs[:1]
         keys = list(ec.all_keys(srcs))
     table = [[k, ec.gen_value_term(rng)] for k in keys]
+    if rng.random() < 0.2 and table:
+        # the callback itself calls the deprecated (context-free) P.foreach / H.foreach
+        kind = rng.choice(["p", "h"])
+        if kind == "p":
+            dice, _ = pools.gen_pool(rng, max_dice=2, max_faces=2, frac_p=0.0)
+            inner = [dice]
+        else:
+            inner = [[gens.hist(rng, max_faces=3, min_faces=1, style="small")]]
+        itbl = [[k, ec.gen_value_term(rng)] for k in ec.all_keys([{"p": d} for d in inner])]
+        j = rng.randrange(len(table))
+        table[j][1] = ["dep", kind, inner, itbl]
     return {"states": [{"srcs": srcs, "npos": rng.randint(0, len(srcs)), "sentinel": [[[0, 1], 1]], "table": table}]}
 
 
@@ -209,7 +220,7 @@ def agree(case, r, o):
 def nontrivial(case, r):
     if case["kind"] == "mech":
         tbl = case["mech"]["states"][0]["table"]
-        return len(tbl) >= 2 and any(t[0] == "hist" and t[1] for _, t in tbl)
+        return len(tbl) >= 2 and any(t[0] in ("hist", "dep") and t[1] for _, t in tbl)
     if case["kind"] == "aggw":
         return len(case["ws"]) >= 2 and any(t[0] == "hist" and t[1] for t, _ in case["ws"])
     return len(case["table"]) >= 2
